@@ -189,7 +189,18 @@ pub fn c09_check(scn: &Scenario, h: &History) -> Outcome {
             }
         }
         // (3)/(4) on_unsubscribe exactly once (observable for direct and channeled subscribers)
-        if matches!(kind, SubKind::Direct | SubKind::Channeled { .. }) {
+        if matches!(kind, SubKind::Direct | SubKind::Channeled { .. }) && !scn.sub(*sub).fn_wrapped {
+            // ... and never before anybody asked for it: neither an unsubscribe() of this
+            // subscriber nor a shutdown had been invoked
+            if let Some(u) = unsubs.first() {
+                let earliest_cause = iv.unsub_inv.unwrap_or(usize::MAX).min(shutdown_inv).min(d.cleanup_in.unwrap_or(usize::MAX));
+                if *u < earliest_cause {
+                    out.viol(format!(
+                        "subscriber {} ({:?}) received on_unsubscribe at @{} although no unsubscribe() of it and no shutdown of the store had been invoked yet (earliest at @{})",
+                        sub, kind, u, if earliest_cause == usize::MAX { "never".to_string() } else { earliest_cause.to_string() }
+                    ));
+                }
+            }
             if unsubs.len() > 1 {
                 out.viol(format!("subscriber {} received on_unsubscribe {} times", sub, unsubs.len()));
             }
@@ -269,7 +280,52 @@ pub static C09: Profile = Profile {
 
 // =============================================================================== C10
 
+/// The triple D1, C, D2 is attached after `close()`, while the reducer (held at a primer) still
+/// has a backlog to work off: a store that is closed but not yet drained still notifies, and C
+/// must be given exactly what the direct subscribers attached at the same moment are given.
+fn c10_attached_after_close(raw: &Raw) -> Scenario {
+    let mut b = ScnB::new();
+    let s = b.store("c10", 4, Pol::Block, CTORS[pick(knob(raw, 1), 3)].clone());
+    let r0 = b.reducer(s);
+    let rg = b.gate();
+    b.comp_mut(r0).gate = Some(rg);
+    let cpol = POLS[pick(knob(raw, 3), 3)];
+    let d1 = b.sub(SubKind::Direct);
+    let c = if cpol == Pol::Block && knob(raw, 15) % 3 == 0 {
+        b.sub(SubKind::Channeled { cap: 16, pol: Pol::Block, default_ctor: true })
+    } else {
+        b.sub(SubKind::Channeled { cap: SMALL_CAPS[pick(knob(raw, 2), SMALL_CAPS.len())], pol: cpol, default_ctor: false })
+    };
+    b.sub_mut(c).stall = stall_of(knob(raw, 5));
+    let d2 = b.sub(SubKind::Direct);
+    let primer = b.action(s, 0);
+    b.s.prelude.push(Op::Dispatch { act: primer, via: Via::Inherent });
+    b.s.prelude.push(Op::GateAwait { gate: rg, entered: 1 });
+    for i in 0..1 + pick(knob(raw, 4), 3) {
+        let a = b.action(s, (i % 4) as u8);
+        if (knob(raw, 6) >> i) & 1 == 1 {
+            b.act_mut(a).keep = vec![r0];
+        }
+        b.s.prelude.push(Op::Dispatch { act: a, via: VIAS[(knob(raw, 7) as usize + i) % 3] });
+    }
+    b.s.prelude.push(Op::Close { store: s });
+    for sub in [d1, c, d2] {
+        b.s.prelude.push(Op::Subscribe { store: s, sub });
+    }
+    let t = b.thread();
+    b.s.threads[t].push(Op::Stall(stall_of(knob(raw, 8))));
+    b.s.threads[t].push(Op::GateOpen { gate: rg });
+    if knob(raw, 9) % 2 == 0 {
+        b.s.threads[t].push(Op::Stop { store: s, via_trait: false });
+    }
+    b.s.epilogue.push(Op::Stop { store: s, via_trait: false });
+    b.finish()
+}
+
 pub fn c10_build(raw: &Raw, _tier: Tier, _sched: bool) -> Scenario {
+    if (knob(raw, 0) >> 3) % 6 == 0 {
+        return c10_attached_after_close(raw);
+    }
     let mut b = ScnB::new();
     let cap = SMALL_CAPS[pick(knob(raw, 0), SMALL_CAPS.len())];
     // mostly a blocking store (so that every accepted action is notified); sometimes a drop policy:
@@ -391,6 +447,9 @@ pub fn c10_check(scn: &Scenario, h: &History) -> Outcome {
     let runs = &p.runs[s];
     let (d1, c, d2) = (0u32, 1u32, 2u32);
     let SubKind::Channeled { cap: ccap, pol: cpol, .. } = d.sub_kind(c) else { return out };
+    if scn.prelude.iter().any(|o| matches!(o, Op::Close { .. })) {
+        out.class("attached-after-close-with-a-backlog");
+    }
     let iv = &sd.subs.iter().find(|(x, _)| *x == c).unwrap().1;
     let s1 = stream_of(h, d1);
     let sc = stream_of(h, c);
@@ -542,7 +601,7 @@ pub fn c10_check(scn: &Scenario, h: &History) -> Outcome {
 
 pub static C10: Profile = Profile {
     id: "C10",
-    rule: "proptest scenarios: a triple registered back-to-back in the prelude - direct D1, channeled C (capacity 1-4, each policy), direct D2 - optionally a second channeled subscriber; 1-3 producers; C's callback is gated (tokens released by a controller thread; under drop policies half of the gated cases hold C without any token until every producer has finished, which deadlocks if reducing waits for C) or stalls; unsubscribe(C) (twice), stop() (in a third of the cases preceded by close()), or both racing on two threads, at a generated point. Oracle O-CHAN: C's calls all on one thread that is not the reducer context, a client thread or another channeled subscriber's thread; C's (state,action) stream vs D1's (equal prefix under BlockOnFull, in-order subsequence under drop policies, newest delivered under DropOldest); everything D2 saw before Inv(unsubscribe C) delivered before its Ret (flush); nothing after; all accepted actions reduced. Non-trivial = C lagged by >= capacity+1 notifications at some point AND the unsubscribe/stop came while an item was still queued for C; distinct by scenario hash.",
+    rule: "proptest scenarios: a triple registered back-to-back in the prelude (in a sixth of the cases after close(), while the held reducer still has a backlog) - direct D1, channeled C (capacity 1-4, each policy), direct D2 - optionally a second channeled subscriber; 1-3 producers; C's callback is gated (tokens released by a controller thread; under drop policies half of the gated cases hold C without any token until every producer has finished, which deadlocks if reducing waits for C) or stalls; unsubscribe(C) (twice), stop() (in a third of the cases preceded by close()), or both racing on two threads, at a generated point. Oracle O-CHAN: C's calls all on one thread that is not the reducer context, a client thread or another channeled subscriber's thread; C's (state,action) stream vs D1's (equal prefix under BlockOnFull, in-order subsequence under drop policies, newest delivered under DropOldest); everything D2 saw before Inv(unsubscribe C) delivered before its Ret (flush); nothing after; all accepted actions reduced. Non-trivial = C lagged by >= capacity+1 notifications at some point AND the unsubscribe/stop came while an item was still queued for C; distinct by scenario hash.",
     raw: raw3,
     build: c10_build,
     check: c10_check,
